@@ -25,31 +25,39 @@ impl FlattenedJson {
         // contains a number that is out of range, like `1e999`. No property of such an event
         // can be matched.
         if let Ok(value) = to_json_value(raw) {
-            s.flatten_value(value, "".into());
+            s.flatten_value(value, None);
         }
 
         s
     }
 
     /// Flatten and insert the `value` at `path`.
+    ///
+    /// The `path` is `None` for the root value. This is different from the empty path, which is
+    /// the path of the property with an empty key in the root object.
     #[instrument(skip(self, value))]
-    fn flatten_value(&mut self, value: JsonValue, path: String) {
+    fn flatten_value(&mut self, value: JsonValue, path: Option<String>) {
         match value {
             JsonValue::Object(fields) => {
                 if fields.is_empty() {
+                    let path = path.unwrap_or_default();
                     if self.map.insert(path.clone(), FlattenedJsonValue::EmptyObject).is_some() {
                         warn!("Duplicate path in flattened JSON: {path}");
                     }
                 } else {
                     for (key, value) in fields {
                         let key = escape_key(&key);
-                        let path = if path.is_empty() { key } else { format!("{path}.{key}") };
-                        self.flatten_value(value, path);
+                        let path = match &path {
+                            Some(path) => format!("{path}.{key}"),
+                            None => key,
+                        };
+                        self.flatten_value(value, Some(path));
                     }
                 }
             }
             value => {
                 if let Some(v) = FlattenedJsonValue::from_json_value(value) {
+                    let path = path.unwrap_or_default();
                     if self.map.insert(path.clone(), v).is_some() {
                         warn!("Duplicate path in flattened JSON: {path}");
                     }
